@@ -109,8 +109,8 @@ GHOST_MUL = "unsigned int g_mul_a, g_mul_b, g_mul_r, g_mul_n;\n"
 
 
 def l_mul(P, cnt, acc, b):
+    # no __CPROVER_assigns: DFCC infers the loop's write set, so a renamed temporary does not break the proof
     return f"""
-__CPROVER_assigns({cnt}, {acc}, {b}, temp_b)
 __CPROVER_loop_invariant({acc} < {P} && {b} < {P})
 __CPROVER_decreases({cnt})
 """
@@ -199,34 +199,38 @@ def leaf_sig_fix(pr):
     return dict(scopes=pr.scopes)
 
 
+MUL_DERIVE = {"cnt": r"while \((\w+) != 0\)", "dbl": r"if \((\w+) >= \w+ - \w+\) \w+ -= \w+;\s*\w+ \+= \w+;\s*\}",
+              "acc": r"if \(\w+ >= \w+ - (\w+)\) \1 -= \w+;\s*\1 \+= \w+;\s*\}"}
+
+
 def fn_add(pr, contract=None):
-    return Fn(pr.path, pr.add_sig, "_add", contract or c_add(pr.Pleaf, pr.a, pr.b),
-              canary=(rf"{pr.a} >= {pr.Pleaf}\)", f"{pr.a} > {pr.Pleaf})"), **leaf_sig_fix(pr),
+    return Fn(pr.path, pr.add_sig, "_add", contract or c_add(pr.Pleaf, "@1@", "@2@"),
+              canary=(rf"@1@ >= {pr.Pleaf}\)", f"@1@ > {pr.Pleaf})"), **leaf_sig_fix(pr),
               sig_subs=([(r"^.*?_add\(", "Element _add(")] if pr.scopes else []))
 
 
 def fn_sub(pr, contract=None):
-    return Fn(pr.path, pr.sub_sig, "_subtract", contract or c_sub(pr.Pleaf, pr.a, pr.b),
-              canary=(rf"{pr.a} < {pr.b}\)", f"{pr.a} <= {pr.b})"), **leaf_sig_fix(pr),
+    return Fn(pr.path, pr.sub_sig, "_subtract", contract or c_sub(pr.Pleaf, "@1@", "@2@"),
+              canary=(r"@1@ < @2@\)", "@1@ <= @2@)"), **leaf_sig_fix(pr),
               sig_subs=([(r"^.*?_subtract\(", "Element _subtract(")] if pr.scopes else []))
 
 
 def fn_mul(pr, contract=None, loops=True, canary=True):
-    pa, pb, cnt, acc, dbl = pr.mul_names
-    return Fn(pr.path, pr.mul_sig, "_multiply", contract or c_mul_range(pr.Pleaf, pa, pb),
-              loops=({0: l_mul(pr.Pleaf, cnt, acc, dbl)} if loops else None), subs=pr.mul_subs,
-              canary=((rf"{dbl} >= {pr.Pleaf} - {acc}\)", f"{dbl} > {pr.Pleaf} - {acc})") if canary else None),
-              **leaf_sig_fix(pr),
+    return Fn(pr.path, pr.mul_sig, "_multiply", contract if contract is not None else c_mul_range(pr.Pleaf, "@1@", "@2@"),
+              loops=({0: l_mul(pr.Pleaf, "@cnt@", "@acc@", "@dbl@")} if loops else None), subs=pr.mul_subs,
+              canary=((rf"@dbl@ >= {pr.Pleaf} - @acc@\)", f"@dbl@ > {pr.Pleaf} - @acc@)") if canary else None),
+              derive=MUL_DERIVE, **leaf_sig_fix(pr),
               sig_subs=([(r"^.*?_multiply\(", "Element _multiply(")] if pr.scopes else []))
 
 
 def fn_mul_step(pr):
-    pa, pb, cnt, acc, dbl = pr.mul_names
     extra = ", unsigned int characteristic" if pr.Pleaf == "characteristic" and pr.key in ("zp_ops", "mfs_ops") else ""
-    sig = f"void _multiply_step(unsigned int* {cnt}, unsigned int* {acc}, unsigned int* {dbl}, unsigned int* temp_b{extra})"
-    return Fn(pr.path, pr.mul_sig, "_multiply_step", c_mul_step(pr.Pleaf, cnt, acc, dbl),
-              piece=("loop", 0, sig, [cnt, acc, dbl, "temp_b"]),
-              canary=(rf"\(\*{dbl}\) >= {pr.Pleaf} - \(\*{dbl}\)", f"(*{dbl}) > {pr.Pleaf} - (*{dbl})"), **leaf_sig_fix(pr))
+    sig = f"void _multiply_step(unsigned int* @cnt@, unsigned int* @acc@, unsigned int* @dbl@, unsigned int* @tmp@{extra})"
+    d = dict(MUL_DERIVE)
+    d["tmp"] = r"(\w+) = \w+;\s*if \(\w+ >= \w+ - \w+\) \1 -= "
+    return Fn(pr.path, pr.mul_sig, "_multiply_step", c_mul_step(pr.Pleaf, "@cnt@", "@acc@", "@dbl@").replace("temp_b", "@tmp@"),
+              piece={"kind": "loop", "ordinal": 0, "sig": sig, "byref": ["@cnt@", "@acc@", "@dbl@", "@tmp@"]}, derive=d,
+              canary=(rf"\(\*@dbl@\) >= {pr.Pleaf} - \(\*@dbl@\)", f"(*@dbl@) > {pr.Pleaf} - (*@dbl@)"), **leaf_sig_fix(pr))
 
 
 def fn_gvu(pr, name="get_value_u"):
@@ -436,7 +440,7 @@ def units(tier):
                       runs=[Run(timeout=240)],
                       desc="_multiply loop body as a function: exact Russian-peasant step (acc += b if odd; b doubled; a halved), all mod p"))
         U.append(Unit(f"{k}._multiply.exact_p31", "C10",
-                      [fn_mul(pr, contract=c_mul_exact_b(pr.Pleaf, pr.mul_names[0], pr.mul_names[1]), loops=False)],
+                      [fn_mul(pr, contract=c_mul_exact_b(pr.Pleaf, "@1@", "@2@"), loops=False)],
                       enforce="_multiply", typedefs=TD_U, globals_=pr.globals_, unwind=7, route="B",
                       bound="characteristic <= 31 (operands < p, so the loop runs <= 5 times; unwinding assertion on)",
                       inputs=["in_e1", "in_e2"] + pin, replay=mkr(cls, "_multiply", ["in_e1", "in_e2"] + pin),
@@ -843,7 +847,7 @@ __CPROVER_assigns(f1->element_)
                           inputs=["in_a", "in_b", P], replay=(mk_replay_native(k) if k in NATIVE_CLASS else mk_replay(k, leaf, ["in_a", "in_b", P])),
                           harness=H(f"  {cls} in_a, in_b; in_a.element_ = nondet_uint(); in_b.element_ = nondet_uint(); {cls} x_a = in_a; {P} = nondet_uint();", f"{opname}(&x_a, in_b);"),
                           desc=f"{cls} operator{opre.replace(chr(92), '')} on two elements: exact result reduced, stored in the left operand"))
-        mulg = fn_mul(pr, contract=c_mul_ghost(pr.Pleaf, pr.mul_names[0], pr.mul_names[1]), loops=False, canary=False)
+        mulg = fn_mul(pr, contract=c_mul_ghost(pr.Pleaf, "@1@", "@2@"), loops=False, canary=False)
         con = f"""
 __CPROVER_requires({P} >= 2 && f1->element_ < {P} && f2.element_ < {P} && g_mul_n == 0)
 __CPROVER_ensures(g_mul_n == 1 && g_mul_a == __CPROVER_old(f1->element_) && g_mul_b == f2.element_ && f1->element_ == g_mul_r)
@@ -896,7 +900,7 @@ def ops_units(pr, U, thorough):
     old = lambda v: f"__CPROVER_old(*{v})"
     gv = fn_gvu(pr)
     G = pr.globals_ + GHOST_MUL
-    mulg = fn_mul(pr, contract=c_mul_ghost(pr.Pleaf, pr.mul_names[0], pr.mul_names[1]), loops=False, canary=False)
+    mulg = fn_mul(pr, contract=c_mul_ghost(pr.Pleaf, "@1@", "@2@"), loops=False, canary=False)
 
     def unit(name, sig, contract, callee_fns, replace, decls, call, inputs, canary, runs=None, replay_op=None, desc=""):
         fn = Fn(path, sig, name, contract, calls=CALLS, canary=canary)
